@@ -141,12 +141,16 @@ def ensure_lib(flavour):
 
 
 def prune(flavour, keep):
+    """drop build dirs of other trees, but never one that was used in the last 2 hours (another check may be
+    running workers from it) and always keep the 3 most recent"""
     d = os.path.join(BUILD, flavour)
     subs = [os.path.join(d, x) for x in os.listdir(d)]
     subs = [s for s in subs if os.path.isdir(s) and s != keep]
     subs.sort(key=lambda s: os.path.getmtime(s), reverse=True)
-    for s in subs[1:]:
-        shutil.rmtree(s, ignore_errors=True)
+    now = time.time()
+    for s in subs[3:]:
+        if now - os.path.getmtime(s) > 2 * 3600:
+            shutil.rmtree(s, ignore_errors=True)
 
 
 def harness_deps(src):
@@ -182,7 +186,10 @@ def ensure_harness(flavour, libdir, name):
 
 def ensure(flavour, harnesses):
     os.makedirs(os.path.join(BUILD, flavour), exist_ok=True)
-    lock = open(os.path.join(BUILD, flavour + ".lock"), "w")
+    cfg = FLAVOURS[flavour]
+    # one lock per (flavour, tree content): checks of different trees do not wait for each other
+    h = file_hash(lib_inputs(cfg["root"]), " ".join(COMMON + cfg["cflags"]) + cfg["root"])
+    lock = open(os.path.join(BUILD, flavour, h + ".lock"), "w")
     fcntl.flock(lock, fcntl.LOCK_EX)
     try:
         libdir = ensure_lib(flavour)
